@@ -67,6 +67,11 @@ package jsonclient
 //@ requires c != nil && c.httpClient != nil
 //@ ensures [success-is-a-post-response-parsed-if-200] result2 == nil ==> do.called && result0 == do.res0 && result0 != nil && after(do, do.res0.Request.Method) == "POST" && (after(do, do.res0.StatusCode) == 200 ==> ju.called && ju.res == nil)
 //@ ensures [caller-view] result2 == nil ==> result0 != nil
+//@ site io.ReadAll#1 as rd
+//@ site Close#1 as cl
+//@ ensures [a-transport-failure-without-a-response-is-passed-on] do.called && do.res1 != nil && do.res0 == nil ==> result2 == do.res1
+//@ ensures [a-body-that-cannot-be-read-completely-is-an-error-carrying-the-status-and-what-was-read] rd.called && rd.res1 != nil ==> result2 != nil && (cl.called && cl.res == nil ==> typeof(result2) == RspError && as(result2, RspError).StatusCode == after(do, do.res0.StatusCode) && as(result2, RspError).Body == rd.res0)
+//@ ensures [a-response-to-a-post-that-was-read-completely-is-returned-unless-it-is-an-unparsable-200] do.res0 != nil && rd.called && rd.res1 == nil && cl.called && cl.res == nil && after(do, do.res0.Request.Method) == "POST" && (!ju.called || ju.res == nil) ==> result2 == nil && result0 == do.res0 && result1 == rd.res0
 //@ ensures [unparsable-200-is-an-error-with-status-and-body] ju.called && ju.res != nil ==> result2 != nil && typeof(result2) == RspError && result0 == nil
 //@ ensures [error-results-are-nil] result2 != nil ==> result0 == nil && result1 == nil
 
@@ -114,6 +119,7 @@ package jsonclient
 //@ ensures [caller-view] result2 == nil ==> result0 != nil
 //@ ensures [success-only-for-200-with-a-decoded-body] result2 == nil ==> do.called && do.res1 == nil && result0 == do.res0 && after(do, do.res0.StatusCode) == 200 && dc.called && dc.res == nil
 //@ ensures [transport-error-passed-on] do.called && do.res1 != nil ==> result2 == do.res1 && result0 == nil
+//@ ensures [a-body-that-cannot-be-read-completely-is-an-error-carrying-the-status-and-what-was-read] rd.called && rd.res1 != nil ==> result2 != nil && (cl.called && cl.res == nil ==> typeof(result2) == RspError && as(result2, RspError).StatusCode == after(do, do.res0.StatusCode) && as(result2, RspError).Body == rd.res0)
 //@ ensures [non-200-never-succeeds] do.called && do.res1 == nil && after(do, do.res0.StatusCode) != 200 ==> result2 != nil
 //@ ensures [non-200-error-carries-status-and-body] do.called && do.res1 == nil && cl.called && cl.res == nil && rd.res1 == nil && after(do, do.res0.StatusCode) != 200 ==> typeof(result2) == RspError && as(result2, RspError).StatusCode == after(do, do.res0.StatusCode) && as(result2, RspError).Body == rd.res0
 //@ ensures [undecodable-body-error-carries-status-and-body] dc.called && dc.res != nil ==> typeof(result2) == RspError && as(result2, RspError).StatusCode == after(do, do.res0.StatusCode) && as(result2, RspError).Body == rd.res0
